@@ -907,6 +907,35 @@ def rw_mut_bindings(toks, rep):
     return out
 
 
+def rw_R17_ctor_fn(toks, rep):
+    """R17: an enum-variant constructor passed as a function (`.map(SocketAddr::V4)`, `.map_err(Error::X)`) is eta-expanded
+    into a closure with its obvious contract: `.map(|verif_e| -> (verif_r: SocketAddr) ensures verif_r == SocketAddr::V4(verif_e)
+    { SocketAddr::V4(verif_e) })` (Verus has no model of constructors used as function values)"""
+    out = list(toks)
+    n = 0
+    i = len(out) - 1
+    while i >= 0:
+        t = out[i]
+        if t.kind == IDENT and t.text in ("map", "map_err") and _prev_sig(out, i) >= 0 and out[_prev_sig(out, i)].text == ".":
+            o = _next_sig(out, i)
+            if o < len(out) and out[o].text == "(":
+                c = match_close(out, o)
+                inner = [k for k in range(o + 1, c) if out[k].kind not in (WS, COMMENT)]
+                txt = [out[k].text for k in inner]
+                # Path :: Variant   (`::` lexes as two ':' tokens or one '::' token)
+                joined = "".join(txt)
+                m = re.fullmatch(r"([A-Z]\w*)::([A-Z]\w*)", joined)
+                if m and m.group(1) not in ("Some", "Ok", "Err", "Box"):
+                    en, va = m.group(1), m.group(2)
+                    new = f"|verif_e| -> (verif_r: {en}) ensures verif_r == {en}::{va}(verif_e) {{ {en}::{va}(verif_e) }}"
+                    out[o + 1:c] = [T("raw", new)]
+                    n += 1
+        i -= 1
+    if n:
+        rep.append(("R17", f"{n} constructor(s) used as function value eta-expanded with contract"))
+    return out
+
+
 DIRECTIVE = re.compile(r"^\s*//@(\+?)\s?(.*)$")
 
 
@@ -1466,6 +1495,7 @@ def _build_fn(sf: SourceFile, item: Item, impl, ex: Extract, props, rep, unit, a
     sig_toks = rw_vis(sig_toks, rep)
     body_toks = rw_strip_comments(body_toks, rep)
     body_toks = rw_mut_bindings(body_toks, rep)
+    body_toks = rw_R17_ctor_fn(body_toks, rep)
     rules = ex.rules
     if "R2" in rules:
         sig_toks = rw_R2_async(sig_toks, rep)
